@@ -141,9 +141,9 @@ def judge(case: Dict, per_variant: List[Dict], vs: List[Dict]) -> CaseResult:
                 res.label("differs_in_reversed_batch_variant")
             res.violate(f"differs-across-{kind}:{d[0]}", f"variant {v['label']} vs base: {d[1]}")
             break
-    # re-seeding reproduces the episode: episodes come in pairs started by the same reset(seed=s)
+    # re-seeding reproduces the episode: consecutive episodes started by the same reset(seed=s) with the same actions
     eps = base["episodes"]
-    for k in range(0, len(eps) - 1, 2) if case["src"] != "folder" else []:
+    for k in range(0, len(eps) - 1) if case["src"] != "folder" else []:
         if eps[k]["start"] == eps[k + 1]["start"] and len(eps[k]["steps"]) == len(eps[k + 1]["steps"]):
             d = diff_episode(eps[k], eps[k + 1])
             if d:
@@ -282,6 +282,18 @@ def uc7_long_case(draw, which: int = 0):
 
 
 @st.composite
+def trial_case(draw):
+    """UC2 with the attacker starting at once and bot success probabilities strictly inside (0, 1): the outcome of every
+    probability trial shapes the episode, three episodes after the same reset(seed=s) must agree (and so must processes)."""
+    s = draw(SEEDS)
+    acts = [["step", 0] for _ in range(draw(st.integers(14, 24)))]
+    return {"src": "shipped", "path": "src/primaite/config/_package_data/data_manipulation.yaml", "max_len": None,
+            "cfg_seed": draw(st.sampled_from([None, 3])), "tweak": draw(st.sampled_from(["early_attack", "shared_first"])),
+            "p": draw(st.sampled_from([0.3, 0.5, 0.7])),
+            "ops": [["reset", s]] + acts + [["reset", s]] + acts + [["reset", s]] + acts + [["reset", s]] + acts}
+
+
+@st.composite
 def uc7_short_case(draw, which: int = 0):
     """A short UC7 episode pair that also runs in the logging variant (the long one is too slow with DEBUG logs): the
     UC7 scripted agents act from step 0, so construction-time differences between variants show at once."""
@@ -340,6 +352,8 @@ def worker(ctx: Ctx):
         cases += collect(uc7_long_case(which=ctx.idx), 1 if q else 2, ctx.wseed * 10 + 3)
     if ctx.idx in (2, 3) or not q:  # quick: workers 2 and 3 run a short UC7 pair under every variant incl. logging
         cases += collect(uc7_short_case(which=ctx.idx), 1, ctx.wseed * 10 + 5)
+    if ctx.idx in (4, 5, 6, 7) or not q:  # probability trials decide the episode (UC2, early attack, 0 < p < 1)
+        cases += collect(trial_case(), 1 if q else 2, ctx.wseed * 10 + 6)
     chunk = 12
     for i in range(0, len(cases), chunk):
         part = cases[i:i + chunk]
